@@ -356,6 +356,13 @@ carquet_status_t carquet_rle_encoder_put(
     }
 
     /* Value changed */
+    /* A bit-packed group may only be padded at the very end of the stream: top up a
+     * pending partial group with values of the closing run before emitting the run. */
+    while (enc->repeat_count >= 8 && enc->bitpack_count > 0 && enc->bitpack_count < 8) {
+        enc->bitpack_buffer[enc->bitpack_count++] = enc->prev_value;
+        enc->bitpack_total++;
+        enc->repeat_count--;
+    }
     if (enc->repeat_count >= 8) {
         /* Flush as RLE */
         flush_bitpack(enc);  /* Flush any pending bit-pack */
@@ -395,6 +402,11 @@ carquet_status_t carquet_rle_encoder_flush(carquet_rle_encoder_t* enc) {
         return enc->status;
     }
 
+    while (enc->repeat_count >= 8 && enc->bitpack_count > 0 && enc->bitpack_count < 8) {
+        enc->bitpack_buffer[enc->bitpack_count++] = enc->prev_value;
+        enc->bitpack_total++;
+        enc->repeat_count--;
+    }
     if (enc->repeat_count >= 8) {
         flush_bitpack(enc);
         flush_rle(enc);
